@@ -89,13 +89,19 @@ def run_properties(props, args, seed, scratch, manifest):
             jobs.append((o, i, smt, len(parts)))
     partial = {}
     with cf.ThreadPoolExecutor(max_workers=int(os.environ.get("VERIF_JOBS", "16"))) as ex:
-        futs = {ex.submit(chk.discharge1, o, smt, (".p%d" % (i + 1)) if n > 1 else "", scratch, timeout, seed, thorough): (o, i) for o, i, smt, n in jobs}
+        # obligations that are excepted (assumed/unclaimed) or recorded as known findings are expected
+        # not to be provable: the thorough tier still tries them, but only within the quick budget
+        known_names = set(k.get("obligation") for k in load_known() if k.get("status", "open") == "open")
+        def budget(o):
+            return 10 if (is_excepted(o) or o["name"] in known_names) else timeout
+        futs = {ex.submit(chk.discharge1, o, smt, (".p%d" % (i + 1)) if n > 1 else "", scratch, budget(o), seed, thorough): (o, i) for o, i, smt, n in jobs}
         for fu in cf.as_completed(futs):
             o, i = futs[fu]
             partial.setdefault(o["name"], {})[i] = fu.result()
     # second chance: the few queries still undecided are raced again, alone on the machine, with
     # a longer limit and other seeds (instantiation-heavy proofs are timing- and seed-sensitive)
-    retry = [(o, i, smt, n) for o, i, smt, n in jobs if not o.get("cover") and partial[o["name"]][i]["answer"] in ("unknown", "error")]
+    retry = [(o, i, smt, n) for o, i, smt, n in jobs if not o.get("cover") and partial[o["name"]][i]["answer"] in ("unknown", "error")
+             and not is_excepted(o) and o["name"] not in known_names]
     if 0 < len(retry) <= 24:
         with cf.ThreadPoolExecutor(max_workers=2) as ex:
             futs = {ex.submit(chk.discharge1, o, smt, (".p%d" % (i + 1)) if n > 1 else "", scratch, timeout * 3, seed + 10, thorough): (o, i) for o, i, smt, n in retry}
@@ -334,9 +340,9 @@ def write_evidence(prop, tier, seed, pobls, st, fns, wall, nviol, out, gen_s):
     for x in st.get("excepted", []):
         assumptions.append("%s obligation %s: %s" % (x["kind"], x["obligation"], x["reason"]))
     assumptions += [
-        "termination is never proved (partial correctness; callee contracts assumed at recursive calls)",
+        "termination is proved only along calls between functions that declare a decreases measure (otherwise partial correctness; callee contracts are assumed at recursive calls)",
         "integers: arith int = mathematical Int with exact wrap per Go operation; arith bv = bit-vectors",
-        "external (non-module) callees without an assumed contract: may write only through pointer/slice arguments; results unconstrained",
+        "external (non-module) callees without an assumed contract: may write only through pointer/slice/callback arguments (reflect.Value.Set* may write any real memory); results unconstrained",
         "interface method calls without a contract: frame = union of the module implementations' mod-sets (host implementations assumed to respect it)",
     ]
     extra = {}
